@@ -178,8 +178,10 @@ def improve_node_matrix_constraint(pomdp, V, node, *, solver=Solvers.scipy_lp, s
     action_strategy = c_a
 
     # c_a can be zero at times; we make sure to correct invalid results of division in the next line.
+    # Each row is normalised by its own mass: the solver satisfies sum_n c_{a,o,n} = c_a only to its
+    # feasibility tolerance, which is not negligible next to a small c_a.
     with np.errstate(divide='ignore', invalid='ignore'):
-        observation_strategy = canz/c_a[:, None, None]
+        observation_strategy = canz/canz.sum(axis=-1, keepdims=True)
     # HACK: for actions with near-0 probabilities, we code in a uniform distribution over next internal states since
     # the above division by a near-0 p(a|s) usually means this doesn't sum to 1 because of numerical errors.
     # We mostly do this because we check that these distributions sum to 1 in other methods.
